@@ -7,6 +7,14 @@ from ..core.common import Outcome, fingerprint
 from ..core.par import run_chunks, mark
 from ..comp import cache as C
 
+# relevance projection (DESIGN §2.4): a rejected observation is charged to a property only if it is an access to
+# a state component the property's theorems mention
+RELEVANT = {
+    'C01': {'cg', 'mg', 'mp', 'md', 'run', 'is', 'ie', 'cs', 'la', 'lr', 'ls', 'lp', 'sb', 'lc', 'call', 'ev'},
+    'C05': {'es', 'la', 'lr', 'mg', 'mp', 'md', 'run', 'is', 'ie', 'rt', 'cg', 'ls', 'lp', 'sb', 'lc'},
+    'C06': {'rt', 'ie', 'cs', 'cg', 'is', 'es', 'call'},
+}
+
 MODULE = 'AiutiVerif.Cache.Props'
 LEAN_SUBDIRS = ['AiutiVerif/Cache', 'AiutiVerif/Core', 'Driver.lean']
 ASSUMPTIONS_COMMON = [
@@ -63,6 +71,10 @@ def _chunk(args):
         out.traces_validated += 1
         if a != 'ok':
             k = int(a.split()[1]) if a.startswith('reject') and a.split()[1].isdigit() else -1
+            kind = r['obs'][k].split(':')[0] if 0 <= k < len(r['obs']) else '?'
+            if kind not in RELEVANT[prop] and kind != '?':
+                out.count('rejected-on-a-component-of-another-property:' + kind)
+                continue
             out.diffs.append({'case': case, 'impl': r['obs'][max(0, k - 12):k + 2], 'model': a,
                               'where': f'observation {k} ({r["obs"][k] if 0 <= k < len(r["obs"]) else "?"}) is not a '
                                        'step of the cache LTS'})
